@@ -145,6 +145,20 @@ PROPS = {
   'trusted_base': ['hand model of src/decoder/stream.rs in coq/Model/Stream.v, tied by differential execution'],
   'assumptions': ['the amount of partial image data handed out before a failure is not compared (as the property allows)'],
  },
+ 'C08': {
+  'level_text': 'Coq theorems (closed under the global context; PARTIAL): advertised output colour type/bit depth = documented for all 15 kinds x 8 flag subsets x tRNS presence; advertised line size = packed size '
+                'for every width; the RGBA palette table (4-byte copy with alpha repair) equals the documented palette at every index for EVERY PLTE and tRNS payload and never panics. The per-row conversion loops '
+                'are modelled and specified but their equality is not proved; it is decided on every run by model = implementation = independent reference conversion on generated images.',
+  'level_note': 'Trusted: Coq kernel; hand model of transform.rs / palette.rs / output_color_type (coq/Model/Transform.v) tied by differential execution through the public API; reference conversion in harness/src/c08.rs. '
+                'Not proved: transform_row = spec_convert for the row loops.',
+  'gen_items': [],
+  'model_name': 'Model/Transform.v transform_row, output_color_type, create_rgba_palette',
+  'rule': 'cases = images built by the reference writer for all 15 colour/depth pairs x {no tRNS, short, equal, long tRNS} x palettes of 1..256 entries (every length thorough) x colour keys that occur / nearly occur '
+          '(one byte off) / do not occur x out-of-range palette indices x plain/Adam7; each decoded under all 8 flag subsets through next_frame and next_row and compared with the documented conversion (pixels, colour '
+          'type, bit depth, line size, buffer size); one-row images also through the extracted Coq model. distinct = (colour, depth, flags, interlace, palette size class, tRNS size class).',
+  'trusted_base': ['hand model coq/Model/Transform.v tied by differential execution', 'reference conversion harness/src/c08.rs written from the documentation'],
+  'assumptions': ['the colour key of grey/RGB images below 16 bits is the low byte of each 16-bit tRNS sample (as the decoder stores it)'],
+ },
 }
 
 NOT_APPLICABLE = {}
